@@ -51,7 +51,8 @@ def run(ctx):
     ctx.assumptions += ["Keccak-256 / BLAKE2b-256 trusted; the structure of M_B, A and M_R comes from spec/crypto/MerkleTree.tla and MMR.tla",
                         "accumulation outputs are supplied in ascending service order and reported package hashes are distinct within a block",
                         "the header hash on the STF path is BLAKE2b(E(header)) computed by the driver with the repository's encoder (codec: C11)",
-                        "in-place modification of the PRIOR history is recorded (cov.prior_mutated) but is not a C25 violation (DESIGN 7: C26)"]
+                        "in-place modification of the PRIOR history is recorded (cov.prior_mutated) but is not a C25 violation (DESIGN 7: C26)",
+                        "sibling probes (same prior objects used again for another block, then for the first block again) carry the SAME parent state root, for which the tree's in-place dagger write is idempotent"]
     import concurrent.futures as cf
     inp = ctx.tmp + "/rnd.ndjson"
     if not ctx.replay:
@@ -88,6 +89,10 @@ def run(ctx):
     ctx.cov["distinct_nontrivial"] = sum(1 for l in blocks if '"gs":[]' not in l or '"outs":[]' not in l)
     ctx.cov["histories"] = sum(1 for l in lines if '"ev":"Reset"' in l)
     ctx.cov["prior_mutated"] = mut
+    sib = [l for l in lines if '"ev":"Sibling"' in l]
+    ctx.cov["sibling_transitions"] = len(sib)
+    ctx.cov["sibling_from_full_window"] = sum(1 for l in sib if len(json.loads(l)["prior"]) == 8)
+    ctx.cov["earlier_result_state_root_rewritten"] = sum(1 for l in lines if '"old_changed":0' not in l and '"old_changed"' in l)
     ctx.cov["rule"] = ("behaviours = TLC-enumerated two-block scripts (history length x belt x package order x outputs), a 20-block run from genesis and seeded "
                        "20-block histories, each on the function-level path, the singleton STF path and the test-vector STF variant; evaluations = block events; non-trivial = blocks with a guarantee or an output")
     ctx.cov["samples"] = [json.loads(x) for x in lines[:2]]
